@@ -16,7 +16,9 @@ VARIABLES i, ok
 Fields == <<"status", "flags", "storm", "rise", "pair", "inter", "recession_curve", "rise_curve",
             "recession_members", "rise_members">>
 
-Fail(c, r, f) == PrintT("FAIL " \o ToJson([id |-> c.id, stretch |-> r, clause |-> "C07 " \o f \o " differs between time origins"]))
+(* the same judge serves C08 (presentations of one collection of pieces): c.prop names the
+   property, c.between what was varied *)
+Fail(c, r, f) == PrintT("FAIL " \o ToJson([id |-> c.id, stretch |-> r, clause |-> c.prop \o " " \o f \o " differs between " \o c.between]))
 Judge(c) ==
     \A r \in 2..Len(c.runs) :
         \A k \in 1..Len(Fields) :
